@@ -10,6 +10,7 @@ package e2e
 import (
 	"fmt"
 	"net/netip"
+	"os"
 	"sync"
 	"testing"
 	"testing/synctest"
@@ -77,7 +78,7 @@ func (n *vNet) AddNode(v cert.Version, name, networks string, overrides m) *vNod
 }
 
 func (n *vNet) Start() {
-	for _, nd := range n.Nodes {
+	for _, nd := range n.sorted() {
 		nd.Ctrl.Start()
 		n.drain(nd)
 	}
@@ -137,11 +138,11 @@ func (n *vNet) PumpOnce() int {
 
 // Stop stops all nodes and the drainers; must be called before the bubble is left.
 func (n *vNet) Stop() {
-	for _, nd := range n.Nodes {
+	for _, nd := range n.sorted() {
 		nd.Ctrl.Stop()
 	}
 	synctest.Wait()
-	for _, nd := range n.Nodes {
+	for _, nd := range n.sorted() {
 		close(nd.stop)
 	}
 	synctest.Wait()
@@ -250,3 +251,5 @@ func vBubble(t *testing.T, f func(t *testing.T)) (panicked any) {
 	synctest.Test(t, f)
 	return nil
 }
+
+func vEnv(k string) string { return os.Getenv(k) }
